@@ -10,6 +10,12 @@ CHECKS = {
  "C02": ("exploration", "invariant hook + transition monitors (dropped outer pins, re-point keeps connections) at every outermost mutator exit",
          "I6-I9 after every call of 'mirror'-profile histories (few definitions, many instances, port/pin/reference edits). Held-on-observed.",
          "pin-map order not checked; oracle reads only the public read API", "4 C02"),
+ "C14": ("fault_enumeration", "before/after identity-level snapshot of the whole universe around every refused outermost mutator call (runtime monitor over hostile call histories)",
+         "every refused call (mutator x invalid-argument class, appendix A) of hostile random histories is one injected fault; snapshot incl. order, connections, reference sets, data, bundle attributes, naming policy, the namespace manager's name tables and (1/3 of histories) public exact-name lookup answers must be identical. Fault classes are enumerated per reachable state, states are explored randomly.",
+         "refusal = explicit assert/raise (incl. listener veto) or missing-key KeyError; other exceptions are crashes: counted, listed in evidence, not judged", "4 C14"),
+ "C19": ("exploration", "callback-driven shadow model compared with the live universe after every call + pre-state predicates inside each notification + listener differential",
+         "a listener that only replays notifications must equal the real structure/data after every call of random histories (accepted, refused, bulk, compound, implicit pin create/drop/disconnect); each notification is checked to precede its effect; extra passive listeners must not change outcomes.",
+         "containment order not mirrored; duplicate disconnect notifications inside one call tolerated; clone/uniquify excluded (not the editing API)", "4 C19"),
 }
 NA = {}
 fixes = subprocess.run(["git", "-C", "/repo", "log", "--format=%h %s"], capture_output=True, text=True).stdout.splitlines()
